@@ -62,6 +62,9 @@ impl Prop for C04P {
                 v.push(Recv::window(11, 3, (1, 0), (10, 3)).enc());
                 v.push(Recv::window(11, 4, (1, 1), (10, 3)).enc());
                 v.push(Recv::window(3, 11, (0, 1), (2, 10)).enc());
+                // ... and of 34 and 67 cells (rows longer than 128 / 256 bytes, not a multiple of 32 cells)
+                v.push(Recv::window(36, 3, (1, 0), (35, 3)).enc());
+                v.push(Recv::window(70, 2, (2, 0), (69, 2)).enc());
                 // a sample of nested windows: every window of the central 3x3 window of a 5x5 parent
                 for (s2, e2) in windows_nonempty(3, 3) {
                     v.push(Recv::nested(5, 5, (1, 1), (4, 4), s2, e2).enc());
